@@ -1,6 +1,10 @@
 package main
 
-import "gopkg.in/typ.v4/slices"
+import (
+	"math"
+
+	"gopkg.in/typ.v4/slices"
+)
 
 // C12: splicing helpers.  The input slice has `spare` extra capacity holding junk (-5).
 func init() { comps["splice"] = driveSplice }
@@ -19,9 +23,18 @@ func driveSplice(plan []M, out *Out, _ []string) {
 		op, i, k, v, spare := str(c, "op"), num(c, "i"), num(c, "k"), num(c, "v"), num(c, "spare")
 		s0, vs0, t0 := ints(c, "s"), ints(c, "vs"), ints(c, "t")
 		e := M{"op": op, "i": i, "k": k, "v": v, "spare": spare, "s": s0, "vs": vs0, "t": t0}
+		if ty := str(c, "ty"); ty != "" {
+			spliceTyped(c, ty, e)
+			out.Emit(e)
+			continue
+		}
 		s := withSpare(s0, spare)
 		vs := withSpare(vs0, 1)
 		t := withSpare(t0, spare)
+		if boolean(c, "adj") { // the two inputs are neighbouring views of one backing array (s's capacity runs over t)
+			base := withSpare(append(append([]int{}, s0...), t0...), spare)
+			s, t = base[:len(s0)], base[len(s0):len(s0)+len(t0)]
+		}
 		res := []int{}
 		fresh1, fresh2 := []int{}, []int{}
 		e["panic"] = protect(func() {
@@ -80,4 +93,137 @@ func driveSplice(plan []M, out *Out, _ []string) {
 		e["fresh1"], e["fresh2"] = fresh1, fresh2
 		out.Emit(e)
 	}
+}
+
+// The helpers on element types other than int: "float" (code -1000 is negative zero), "slice" ([]int{v}, nil for 0: not comparable),
+// "struct" (a struct holding a slice: not comparable), "string" ("" for 0).  Results are decoded back to the codes.
+func spliceTyped(c M, ty string, e M) {
+	switch ty {
+	case "float":
+		spliceT(c, e, func(v int) float64 {
+			if v == -1000 {
+				return math.Copysign(0, -1)
+			}
+			return float64(v)
+		}, func(f float64) int {
+			if f == 0 && math.Signbit(f) {
+				return -1000
+			}
+			return int(f)
+		})
+	case "slice":
+		spliceT(c, e, func(v int) []int {
+			if v == 0 {
+				return nil
+			}
+			return []int{v}
+		}, func(x []int) int {
+			if x == nil {
+				return 0
+			}
+			return x[0]
+		})
+	case "struct":
+		type box struct {
+			a []int
+			b int
+		}
+		spliceT(c, e, func(v int) box {
+			if v == 0 {
+				return box{}
+			}
+			return box{[]int{v}, v}
+		}, func(x box) int { return x.b })
+	default:
+		spliceT(c, e, func(v int) string {
+			if v == 0 {
+				return ""
+			}
+			return string(rune('a'+v%26)) + string(rune('0'+v%10))
+		}, func(x string) int {
+			if x == "" {
+				return 0
+			}
+			for v := 1; v < 300; v++ {
+				if string(rune('a'+v%26))+string(rune('0'+v%10)) == x {
+					return v
+				}
+			}
+			return -1
+		})
+	}
+}
+
+func spliceT[T any](c M, e M, to func(int) T, from func(T) int) {
+	op, i, k, v, spare := str(c, "op"), num(c, "i"), num(c, "k"), num(c, "v"), num(c, "spare")
+	conv := func(xs []int, spare int) []T {
+		b := make([]T, len(xs)+spare)
+		for j, x := range xs {
+			b[j] = to(x)
+		}
+		for j := len(xs); j < len(b); j++ {
+			b[j] = to(-5)
+		}
+		return b[:len(xs)]
+	}
+	back := func(xs []T) []int {
+		o := []int{}
+		for _, x := range xs {
+			o = append(o, from(x))
+		}
+		return o
+	}
+	s, vs, t := conv(ints(c, "s"), spare), conv(ints(c, "vs"), 1), conv(ints(c, "t"), spare)
+	var res []T
+	fresh1, fresh2 := []int{}, []int{}
+	e["panic"] = protect(func() {
+		switch op {
+		case "Insert":
+			slices.Insert(&s, i, to(v))
+			res = s
+		case "InsertSlice":
+			slices.InsertSlice(&s, i, vs)
+			res = s
+		case "Remove":
+			slices.Remove(&s, i)
+			res = s
+		case "RemoveSlice":
+			slices.RemoveSlice(&s, i, k)
+			res = s
+		case "Fill":
+			slices.Fill(s, to(v))
+			res = s
+		case "Repeat":
+			res = slices.Repeat(to(v), k)
+		case "Reverse":
+			slices.Reverse(s)
+			res = s
+		case "Grow":
+			res = slices.Grow(s, k)
+		case "Concat", "Clone":
+			var r []T
+			if op == "Concat" {
+				r = slices.Concat(s, t)
+			} else {
+				r = slices.Clone(s)
+			}
+			res = append([]T{}, r...)
+			for j := range r {
+				r[j] = to(99)
+			}
+			fresh1 = append(back(s), back(t)...)
+			copy(r, res)
+			for j := range s[:cap(s)] {
+				s[:cap(s)][j] = to(97)
+			}
+			for j := range t[:cap(t)] {
+				t[:cap(t)][j] = to(97)
+			}
+			fresh2 = back(r)
+		}
+	})
+	e["res"] = back(res)
+	e["vsafter"] = back(vs)
+	e["fresh1"], e["fresh2"] = fresh1, fresh2
+	e["ty"] = str(c, "ty")
 }
